@@ -184,7 +184,7 @@ impl ModelReceiver{
 
             Self::ArcMutex => {
                 let mut_token = if is_mut { quote!{mut} } else { quote!{} };
-                quote!{ let #mut_token #actor = actor.lock() #unwrap_await; }
+                quote!{ let #mut_token #actor = #actor.lock() #unwrap_await; }
             },
             Self::ArcRwLock => {
                 let (mut_token, read_write) = 
